@@ -2,10 +2,10 @@
 """Regenerates MANIFEST.json from the table below (kept next to the checks so the two stay in step)."""
 import json, subprocess
 CLAIMED = {
- "C01": ("catch_unwind/abort monitor over exhaustive + random hostile inputs, both overflow-check configurations",
+ "C01": ("catch_unwind/abort monitor over exhaustive + random hostile inputs, both overflow-check configurations; concurrent first-use sweeps in fresh processes",
          "exploration", "Every call crosses the recording boundary under catch_unwind in worker processes; a panic, or a process abort (pinned on the input by a trace-mode re-run), is a violation. Exhaustive over short token/character sequences, random and mutated beyond; held-on-observed, not a proof over all 256-char strings.",
          "8 MiB stack; Rust panic=unwind; sanitizer sub-runs (ASan, Miri, valgrind) in the thorough tier", "§5 C01"),
- "C02": ("step-counter invariant hook (verif_hooks tick budget) + instruction counting under cachegrind + CPU-time watchdog",
+ "C02": ("step-counter invariant hook (verif_hooks tick budget) over inputs of up to 72 000 characters + instruction counting under cachegrind + CPU-time watchdog",
          "exploration", "Each call is armed with a budget of exactly 4096+256*len counted steps through the cfg-guarded counter; exceeding it, or consuming more than the CPU backstop in one call, is a violation. Workloads aim every looping construct at extreme arguments. A second, deterministic backstop for loops that carry no counter: every magnitude bomb, every construct repeated up to 256 characters and large random trees run under cachegrind, and the instructions per call must stay below 10^7 + 10^6*chars.",
          "steps are counted only where tick() is placed (all loops and recursive calls of the crate); work outside counted steps (loops added later, loops inside dependencies) is bounded by the instruction budget (about 16x the most expensive call of the pinned tree) and the CPU watchdog", "§5 C02"),
  "C03": ("reference-model monitor: independent lexer + recursive-descent recogniser",
